@@ -24,4 +24,15 @@ def hitPRF {α β : Type} (feas : α → β → Bool) (ref : List α) (est : Lis
 /-- windowed event feasibility `|r - e| ≤ w` -/
 def withinWindow (w : Rat) (r e : Rat) : Bool := decide (e - w ≤ r ∧ r ≤ e + w)
 
+namespace HitMetric
+def handler : Handler := fun fn args =>
+  match fn, args with
+  | "hitmetric.event_prf", [r, e, w, b] => do
+      -- [precision, recall, F] of a windowed event matching (what onset.f_measure / beat.f_measure compute)
+      let r ← r.asRats?; let e ← e.asRats?; let w ← w.asRat?; let b ← b.asRat?
+      let (p, rc, f) := hitPRF (withinWindow w) r e b
+      some (.ok (.list [.rat p, .rat rc, .rat f]))
+  | _, _ => none
+end HitMetric
+
 end Mir
